@@ -162,6 +162,11 @@ func (w *cWorld) project() (cState, cObs) {
 			obs.At = append(obs.At, "nil")
 			continue
 		}
+		if reflectIsNil(r) {
+			// a nil pointer inside a non-nil interface value: `At(i) == nil` is false for the caller
+			obs.At = append(obs.At, "typed-nil")
+			continue
+		}
 		id, _ := r.Get("id").(string)
 		obs.At = append(obs.At, id)
 		if i >= 0 && i < n {
@@ -173,7 +178,9 @@ func (w *cWorld) project() (cState, cObs) {
 	for _, id := range []string{"1", "2", "3", "9"} {
 		r := w.col.Resource(id, nil)
 		obs.ByID[id] = 0
-		if r != nil {
+		if r != nil && reflectIsNil(r) {
+			obs.ByID[id] = -2 // a typed nil
+		} else if r != nil {
 			for i := 0; i < n; i++ {
 				if w.col.At(i) == r {
 					obs.ByID[id] = i + 1
@@ -213,6 +220,11 @@ func runSoftColCase(c cCase) (ev cEvent) {
 	})
 	if p {
 		ev.Ret = "panic"
+		if ev.Pre.Items == nil || ev.Pre.Srcs == nil || ev.Pre.CType.Fields == nil {
+			// the panic came while the state before the step was being read
+			ev.Pre = cState{CType: cType{Fields: defMap{}}, Items: []cItem{}, Srcs: []cSrc{}}
+			ev.Post = cState{}
+		}
 		if ev.Post.Items == nil {
 			ev.Post = ev.Pre
 			ev.Obs = cObs{At: []string{}, ByID: map[string]int{}, ItemDefs: []defMap{}}
